@@ -202,18 +202,19 @@ func cmdCheck(args []string) int {
 	// scripts are printed sequentially (the term pool is not concurrent), solved in parallel
 	type prepared struct {
 		job     oblJob
+		subs    []*Obligation
 		scripts []string
-		grounds []string
 		paths   []string
+		solved  []bool
 	}
-	var preps []prepared
+	var preps []*prepared
 	for i, j := range jobs {
 		if j.o.Taint != "" && !j.expectSat {
 			j.o.Status = "unsupported"
 			j.o.Output = j.o.Taint
 			continue
 		}
-		p := prepared{job: j}
+		p := &prepared{job: j}
 		parts := []*Term{j.o.Goal}
 		if !j.expectSat {
 			parts = splitGoal(j.o.Goal)
@@ -222,57 +223,97 @@ func cmdCheck(args []string) int {
 			sub := *j.o
 			sub.Goal = g
 			sc, _ := obligationScript(j.fr, &sub, nil)
+			p.subs = append(p.subs, &sub)
 			p.scripts = append(p.scripts, sc)
-			gs := ""
-			if !j.expectSat {
-				gs = groundScript(j.fr, &sub)
-			}
-			p.grounds = append(p.grounds, gs)
 			p.paths = append(p.paths, filepath.Join(workDir, fmt.Sprintf("%04d_%s.%d.smt2", i, fileSafe(j.o.Name), k)))
+			p.solved = append(p.solved, false)
 		}
+		j.o.Status = "proved"
 		preps = append(preps, p)
 	}
-	var wg sync.WaitGroup
-	sem := make(chan struct{}, 6)
 	var solverSeconds float64
 	var mu sync.Mutex
-	for _, p := range preps {
-		wg.Add(1)
-		sem <- struct{}{}
-		go func(p prepared) {
-			defer wg.Done()
-			defer func() { <-sem }()
-			to := timeoutS
-			if p.job.expectSat {
-				to = 10
-			}
-			o := p.job.o
-			o.Status = "proved"
-			for k := range p.scripts {
-				r := runSolvers2(p.scripts[k], p.grounds[k], p.paths[k], to, *tier == "thorough" && !p.job.expectSat, seed)
-				o.Seconds += r.Seconds
-				if r.Backend != "" {
-					o.Backend = r.Backend
-				}
-				mu.Lock()
-				solverSeconds += r.Seconds
-				mu.Unlock()
-				if r.Status == "unsat" {
-					if !*keep {
-						os.Remove(p.paths[k])
+	// phase 1: plain queries with a short limit; phase 2: the rest raced together with their ground instantiation
+	for phase := 1; phase <= 2; phase++ {
+		grounds := map[*prepared][]string{}
+		if phase == 2 {
+			for _, p := range preps {
+				gs := make([]string, len(p.scripts))
+				for k := range p.scripts {
+					if !p.solved[k] && !p.job.expectSat && p.job.o.Status == "proved" {
+						gs[k] = groundScript(p.job.fr, p.subs[k])
 					}
-					continue
 				}
-				o.Output = fmt.Sprintf("conjunct %d/%d: %s %s", k+1, len(p.scripts), r.Status, r.Output)
-				if r.Status == "sat" {
-					o.Status = "failed"
-				} else {
-					o.Status = "unknown"
-				}
-				break
+				grounds[p] = gs
 			}
-		}(p)
+		}
+		var wg sync.WaitGroup
+		sem := make(chan struct{}, 6)
+		for _, p := range preps {
+			if p.job.o.Status != "proved" {
+				continue
+			}
+			pending := false
+			for k := range p.scripts {
+				if !p.solved[k] {
+					pending = true
+				}
+			}
+			if !pending {
+				continue
+			}
+			wg.Add(1)
+			sem <- struct{}{}
+			go func(p *prepared) {
+				defer wg.Done()
+				defer func() { <-sem }()
+				to := timeoutS
+				if p.job.expectSat {
+					to = 10
+				}
+				if phase == 1 && to > 3 {
+					to = 3
+				}
+				o := p.job.o
+				for k := range p.scripts {
+					if p.solved[k] {
+						continue
+					}
+					g := ""
+					if phase == 2 {
+						g = grounds[p][k]
+					}
+					r := runSolvers2(p.scripts[k], g, p.paths[k], to, *tier == "thorough" && !p.job.expectSat && phase == 2, seed)
+					o.Seconds += r.Seconds
+					if r.Backend != "" {
+						o.Backend = r.Backend
+					}
+					mu.Lock()
+					solverSeconds += r.Seconds
+					mu.Unlock()
+					if r.Status == "unsat" {
+						p.solved[k] = true
+						if !*keep {
+							os.Remove(p.paths[k])
+						}
+						continue
+					}
+					if r.Status == "sat" {
+						o.Status = "failed"
+						o.Output = fmt.Sprintf("conjunct %d/%d: %s %s", k+1, len(p.scripts), r.Status, r.Output)
+						break
+					}
+					if phase == 2 {
+						o.Status = "unknown"
+						o.Output = fmt.Sprintf("conjunct %d/%d: %s %s", k+1, len(p.scripts), r.Status, r.Output)
+						break
+					}
+				}
+			}(p)
+		}
+		wg.Wait()
 	}
+	var wg sync.WaitGroup
 	wg.Wait()
 
 	// interpret
